@@ -1,6 +1,11 @@
 """Local engine pieces of C19 (candidates for promotion into sa/lib.py).
 
-  * `anchor(repo, spec)`      -- the public function with every same-class / same-module callee inlined (private or not)
+  * `anchor(repo, spec)`      -- the public function with every same-class / same-module callee inlined (private or not), normalised
+                                 and re-flattened until stable
+  * `Normaliser`              -- AST -> AST normal form of a flattened function: callable values applied symbolically (lambdas,
+                                 closures, operator.methodcaller / attrgetter / itemgetter, functools.partial, bound-method aliases),
+                                 map / filter -> generator expressions, loops / comprehensions over comprehensions fused, constant
+                                 tables indexed, record (NamedTuple / dataclass) fields, properties and one-expression methods resolved
   * `View(repo, f, G, val)`   -- a flattened function under a valuation of guard atoms:
         - reaching definitions recomputed on the part of the CFG the valuation allows (so `x = A; if c: x = B; return x` has ONE
           definition of x at the return under c=True -- the unrestricted chains filtered by reachability keep both);
@@ -13,6 +18,8 @@ Nothing here looks at local variable names or source text.
 from __future__ import annotations
 
 import ast
+import copy
+import itertools
 import re
 from typing import Dict, List, Optional, Set, Tuple
 
@@ -25,7 +32,14 @@ from ..core import FuncInfo, Repo
 # --------------------------------------------------------------------------------------------------------- anchors
 def anchor(repo: Repo, spec: str) -> FuncInfo:
     """`spec` flattened; besides private helpers also the other methods of its class and the functions of its module are inlined,
-    so it does not matter whether a helper is private, public, static or a module function"""
+    so it does not matter whether a helper is private, public, static or a module function.  The flattened body is then brought
+    into a normal form (see `Normaliser`) and flattened again until nothing changes: helpers that were only reachable through a
+    callable value (map(self._fmt, ..), a dispatch table, functools.partial) and generator helpers consumed inside an inlined
+    helper are expanded as well"""
+    cache = repo.__dict__.setdefault("_c19_anchors", {})
+    if spec in cache:
+        return cache[spec]
+    from ..inline import Flattener
     f0 = repo.func(spec)
     also: Set[str] = set()
     if f0.cls and f0.cls in repo.classes:
@@ -35,7 +49,823 @@ def anchor(repo: Repo, spec: str) -> FuncInfo:
         if g.mod is f0.mod and g.cls is None:
             also.add(g.name)
     also.discard(f0.name)
-    return L.fn(repo, spec, depth=8, also=also or None)
+    f = L.fn(repo, spec, depth=8, also=also or None)
+    keep = cache.setdefault("#nodes", [])
+    prev = ast.dump(f.node)
+    for _round in range(4):
+        node = copy.deepcopy(f.node)
+        try:
+            Normaliser(repo, f0, node).run()
+        except (AttributeError, TypeError, ValueError, KeyError, IndexError, RecursionError):
+            node = copy.deepcopy(f.node)      # an unexpected construct: judged as written (never less strict)
+        g = FuncInfo(f0.mod, f0.cls, node, static=f0.static)
+        g.qn = f0.qn
+        h = Flattener(repo, g, 8, also or None).run()
+        h.flat_of = f0
+        keep.append(h.node)           # the engines cache by id(node): the node must stay alive
+        cur = ast.dump(h.node)
+        f = h
+        if cur == prev:
+            break
+        prev = cur
+    cache[spec] = f
+    return f
+
+
+# --------------------------------------------------------------------------------------------------------- normal form
+_fresh = itertools.count(1)
+SCOPES = (ast.FunctionDef, ast.AsyncFunctionDef, ast.Lambda, ast.ClassDef)
+COMPS = (ast.ListComp, ast.SetComp, ast.GeneratorExp, ast.DictComp)
+BOOL_CALLS = ("any", "all", "bool", "isinstance", "issubclass", "callable", "hasattr")
+BOOL_METHODS = ("startswith", "endswith", "isdigit", "isalpha", "isalnum", "isspace", "islower", "isupper", "isidentifier")
+OP_BIN = {"add": ast.Add, "concat": ast.Add, "sub": ast.Sub, "mul": ast.Mult, "mod": ast.Mod, "or_": ast.BitOr, "and_": ast.BitAnd,
+          "floordiv": ast.FloorDiv, "truediv": ast.Div}
+OP_CMP = {"eq": ast.Eq, "ne": ast.NotEq, "lt": ast.Lt, "le": ast.LtE, "gt": ast.Gt, "ge": ast.GtE, "is_": ast.Is, "is_not": ast.IsNot}
+
+
+def _walk_scope(node: ast.AST):
+    """ast.walk that does not enter nested function / class definitions (the definition node itself is yielded)"""
+    todo = [node]
+    first = True
+    while todo:
+        n = todo.pop()
+        yield n
+        if isinstance(n, SCOPES) and not first:
+            continue
+        first = False
+        todo.extend(ast.iter_child_nodes(n))
+
+
+def _relocate(e: ast.AST, at: ast.AST) -> ast.AST:
+    """a substituted expression is reported (and ordered) at the place where it is put"""
+    for x in ast.walk(e):
+        if isinstance(x, (ast.expr, ast.stmt)):
+            ast.copy_location(x, at)
+    return e
+
+
+class _Subst(ast.NodeTransformer):
+    def __init__(self, mapping: Dict[str, ast.AST]):
+        self.m = mapping
+
+    def visit_Name(self, n):
+        if isinstance(n.ctx, ast.Load) and n.id in self.m:
+            return copy.deepcopy(self.m[n.id])
+        return n
+
+
+class _Rename(ast.NodeTransformer):
+    def __init__(self, mapping: Dict[str, str]):
+        self.m = mapping
+
+    def visit_Name(self, n):
+        if n.id in self.m:
+            return ast.copy_location(ast.Name(id=self.m[n.id], ctx=n.ctx), n)
+        return n
+
+
+def _names(e: ast.AST, ctx=None) -> Set[str]:
+    return {x.id for x in ast.walk(e) if isinstance(x, ast.Name) and (ctx is None or isinstance(x.ctx, ctx))}
+
+
+def _bound_inside(e: ast.AST) -> Set[str]:
+    """names bound by the expression itself (comprehension variables, lambda parameters, walrus targets)"""
+    out = _names(e, ast.Store)
+    for x in ast.walk(e):
+        if isinstance(x, ast.Lambda):
+            a = x.args
+            out |= {y.arg for y in a.posonlyargs + a.args + a.kwonlyargs} | ({a.vararg.arg} if a.vararg else set()) | ({a.kwarg.arg} if a.kwarg else set())
+    return out
+
+
+class _Applicable:
+    """a callable value that can be applied symbolically: apply(args, keywords) -> the expression the call evaluates, or None"""
+
+    def __init__(self, apply):
+        self.apply = apply
+
+
+class Normaliser:
+    """Rewrites a flattened function into an equivalent one in which values are computed by plain expressions:
+
+      * calls of callable VALUES are replaced by what they evaluate: lambdas / one-expression local functions (closures), module
+        level `NAME = lambda ..` / `NAME = operator.methodcaller(..)` / `NAME = TEMPLATE.format`, operator.* functions,
+        operator.methodcaller / attrgetter / itemgetter, functools.partial, unbound `str.lower(x)`, `(A if c else B)(x)`;
+      * `map(F, it)` / `filter(F, it)` become generator expressions, a `for` over a one-generator comprehension becomes a loop
+        over its source (`for x in (E for y in IT if C): B` -> `for y in IT: if C: x = E; B`), a comprehension over a
+        comprehension is fused, an iterator alias that is consumed once is put where it is consumed;
+      * a constant dict indexed with a constant gives that value, a {True: A, False: B} table indexed with a boolean expression is
+        `A if k else B` (also `.get`);
+      * a field read from a freshly built NamedTuple / dataclass record (`R(a, b).x`, `r = R(a, b); r.x`, `r[0]`) is the argument;
+      * `Class.method(self, ..)` in the anchor's class is `self.method(..)`.
+
+    Nothing is decided here by names of locals or by source text: only bindings, imports and definitions are followed."""
+
+    def __init__(self, repo: Repo, f0: FuncInfo, fn: ast.FunctionDef):
+        self.repo, self.f0, self.fn = repo, f0, fn
+        self.mod = f0.mod.name
+        self.changed = False
+
+    # ---------------------------------------------------------------- bindings of the function
+    def _scan(self) -> None:
+        fn = self.fn
+        self.binds: Dict[str, List[ast.AST]] = {}       # name -> binding statements / markers
+        self.loads: Dict[str, int] = {}
+        self.unsafe_dict_use: Set[str] = set()
+        a = fn.args
+        for x in a.posonlyargs + a.args + a.kwonlyargs + ([a.vararg] if a.vararg else []) + ([a.kwarg] if a.kwarg else []):
+            self.binds.setdefault(x.arg, []).append(x)
+        simple: Dict[int, ast.AST] = {}
+        for n in _walk_scope(fn):
+            if n is fn:
+                continue
+            if isinstance(n, (ast.FunctionDef, ast.AsyncFunctionDef, ast.ClassDef)):
+                self.binds.setdefault(n.name, []).append(n)
+            elif isinstance(n, ast.Assign) and len(n.targets) == 1 and isinstance(n.targets[0], ast.Name):
+                simple[id(n.targets[0])] = n
+            elif isinstance(n, ast.AnnAssign) and isinstance(n.target, ast.Name) and n.value is not None:
+                simple[id(n.target)] = n
+            elif isinstance(n, ast.ExceptHandler) and n.name:
+                self.binds.setdefault(n.name, []).append(n)
+            elif isinstance(n, (ast.Import, ast.ImportFrom)):
+                for al in n.names:
+                    self.binds.setdefault((al.asname or al.name).split(".")[0], []).append(n)
+            elif isinstance(n, (ast.Global, ast.Nonlocal)):
+                for nm in n.names:
+                    self.binds.setdefault(nm, []).append(n)
+        for n in _walk_scope(fn):
+            if isinstance(n, ast.Name) and isinstance(n.ctx, (ast.Store, ast.Del)):
+                self.binds.setdefault(n.id, []).append(simple.get(id(n), n))
+        for n in ast.walk(fn):
+            if isinstance(n, ast.Name) and isinstance(n.ctx, ast.Load):
+                self.loads[n.id] = self.loads.get(n.id, 0) + 1
+            # names bound in nested scopes are treated as locals too (conservative)
+            if isinstance(n, ast.Name) and isinstance(n.ctx, ast.Store) and n.id not in self.binds:
+                self.binds[n.id] = [n, n]
+            if isinstance(n, ast.arg) and n.arg not in self.binds:
+                self.binds[n.arg] = [n, n]
+        safe: Dict[str, int] = {}
+        for n in ast.walk(fn):
+            if isinstance(n, ast.Subscript) and isinstance(n.ctx, ast.Load) and isinstance(n.value, ast.Name):
+                safe[n.value.id] = safe.get(n.value.id, 0) + 1
+            elif isinstance(n, ast.Call) and isinstance(n.func, ast.Attribute) and n.func.attr == "get" and isinstance(n.func.value, ast.Name):
+                safe[n.func.value.id] = safe.get(n.func.value.id, 0) + 1
+        for nm, cnt in self.loads.items():
+            if safe.get(nm, 0) != cnt:
+                self.unsafe_dict_use.add(nm)
+
+    def iterated_only(self, name: str) -> bool:
+        """every use of the local is as the iterable of a `for` / the first iterable of a comprehension"""
+        uses = 0
+        for n in ast.walk(self.fn):
+            its = [n.iter] if isinstance(n, ast.For) else [g.iter for g in n.generators] if isinstance(n, COMPS) else []
+            uses += sum(1 for x in its if isinstance(x, ast.Name) and x.id == name)
+        return uses > 0 and uses == self.loads.get(name, 0)
+
+    def is_local(self, name: str) -> bool:
+        return name in self.binds
+
+    def single(self, name: str) -> Optional[ast.AST]:
+        """the one binding of a local: an Assign / AnnAssign / FunctionDef statement"""
+        b = self.binds.get(name)
+        if b and len(b) == 1 and isinstance(b[0], (ast.Assign, ast.AnnAssign, ast.FunctionDef)):
+            return b[0]
+        return None
+
+    # ---------------------------------------------------------------- references
+    def _shadowed(self, e: ast.AST) -> bool:
+        """a module-level expression put into the function would see a local instead of the global it names"""
+        return any(self.is_local(x) for x in _names(e, ast.Load) - _bound_inside(e))
+
+    def external(self, e: ast.AST, ctx_mod: Optional[str]) -> Optional[Tuple[str, str]]:
+        """(module, attribute) for `operator.add` / `op.add` (import operator as op) / `add` (from operator import add)"""
+        mod = ctx_mod or self.mod
+        if isinstance(e, ast.Attribute) and isinstance(e.value, ast.Name) and not (ctx_mod is None and self.is_local(e.value.id)):
+            r = self.repo.lookup(mod, e.value.id)
+            if r and r[0] in ("module", "external"):
+                m = r[1] if isinstance(r[1], str) else (r[1][0] if r[1][1] is None else None)
+                if m:
+                    return m, e.attr
+        if isinstance(e, ast.Name) and not (ctx_mod is None and self.is_local(e.id)):
+            r = self.repo.lookup(mod, e.id)
+            if r and r[0] == "external" and isinstance(r[1], tuple) and r[1][1]:
+                return r[1][0], r[1][1]
+        return None
+
+    def _builtin(self, e: ast.AST, name: str, ctx_mod: Optional[str] = None) -> bool:
+        return isinstance(e, ast.Name) and e.id == name and not (ctx_mod is None and self.is_local(name)) and not self.repo.lookup(ctx_mod or self.mod, name)
+
+    def _global_value(self, name: str, ctx_mod: Optional[str]):
+        r = self.repo.lookup(ctx_mod or self.mod, name)
+        if r and r[0] == "const":
+            return r[1], r[2]
+        return None
+
+    # ---------------------------------------------------------------- callable values
+    def _lam(self, args: ast.arguments, body: ast.AST, ctx_mod: Optional[str]) -> Optional[_Applicable]:
+        if args.vararg or args.kwarg or args.kwonlyargs:
+            return None
+        params = [x.arg for x in args.posonlyargs + args.args]
+        defaults = dict(zip(params[len(params) - len(args.defaults):], args.defaults))
+        inner = _bound_inside(body)
+        if inner & set(params):
+            return None
+        if ctx_mod is not None and any(self.is_local(x) for x in _names(body, ast.Load) - inner - set(params)):
+            return None
+        if any(isinstance(x, (ast.Yield, ast.YieldFrom, ast.Await)) for x in ast.walk(body)):
+            return None
+
+        def apply(cargs, ckws):
+            if any(isinstance(x, ast.Starred) for x in cargs) or any(k.arg is None for k in ckws) or len(cargs) > len(params):
+                return None
+            bound: Dict[str, ast.AST] = dict(zip(params, cargs))
+            for k in ckws:
+                if k.arg not in params or k.arg in bound:
+                    return None
+                bound[k.arg] = k.value
+            for p_ in params:
+                if p_ not in bound:
+                    if p_ not in defaults:
+                        return None
+                    bound[p_] = defaults[p_]
+            if any(_names(v) & inner for v in bound.values()):
+                return None     # a comprehension variable of the body would capture a name of the argument
+            return _Subst(bound).visit(copy.deepcopy(body))
+
+        return _Applicable(apply)
+
+    def callable_value(self, e: ast.AST, ctx_mod: Optional[str] = None, bound_ok: bool = False, depth: int = 0) -> Optional[_Applicable]:
+        if depth > 8:
+            return None
+        if isinstance(e, ast.Lambda):
+            return self._lam(e.args, e.body, ctx_mod)
+        if isinstance(e, ast.Name):
+            if ctx_mod is None and self.is_local(e.id):
+                b = self.single(e.id)
+                if isinstance(b, ast.FunctionDef):
+                    body = list(b.body)
+                    if body and isinstance(body[0], ast.Expr) and isinstance(body[0].value, ast.Constant) and isinstance(body[0].value.value, str):
+                        body = body[1:]
+                    if len(body) == 1 and isinstance(body[0], ast.Return) and body[0].value is not None and not b.decorator_list:
+                        return self._lam(b.args, body[0].value, None)
+                    return None
+                if b is not None:
+                    return self.callable_value(b.value, None, True, depth + 1)
+                return None
+            gv = self._global_value(e.id, ctx_mod)
+            if gv is not None:
+                return self.callable_value(gv[0], gv[1], True, depth + 1)
+            ext = self.external(e, ctx_mod)
+            return self._external_fn(*ext) if ext else None
+        if isinstance(e, ast.Attribute):
+            ext = self.external(e, ctx_mod)
+            if ext:
+                return self._external_fn(*ext)
+            if self._builtin(e.value, "str", ctx_mod):
+                attr = e.attr
+
+                def unbound(cargs, ckws):
+                    if not cargs or isinstance(cargs[0], ast.Starred):
+                        return None
+                    return ast.Call(func=ast.Attribute(value=copy.deepcopy(cargs[0]), attr=attr, ctx=ast.Load()), args=[copy.deepcopy(x) for x in cargs[1:]],
+                                    keywords=[copy.deepcopy(k) for k in ckws])
+                return _Applicable(unbound)
+            if bound_ok and not (isinstance(e.value, ast.Name) and self._names_module_or_class(e.value, ctx_mod)):
+                if ctx_mod is not None and self._shadowed(e):
+                    return None
+                return _Applicable(lambda cargs, ckws: ast.Call(func=copy.deepcopy(e), args=[copy.deepcopy(x) for x in cargs], keywords=[copy.deepcopy(k) for k in ckws]))
+            return None
+        if isinstance(e, ast.Call):
+            ext = self.external(e.func, ctx_mod)
+            if ext is None or any(isinstance(x, ast.Starred) for x in e.args) or any(k.arg is None for k in e.keywords):
+                return None
+            if ctx_mod is not None and self._shadowed(e):
+                return None
+            if ext == ("operator", "methodcaller") and e.args and isinstance(e.args[0], ast.Constant) and isinstance(e.args[0].value, str):
+                def mc(cargs, ckws):
+                    if len(cargs) != 1 or ckws or isinstance(cargs[0], ast.Starred):
+                        return None
+                    return ast.Call(func=ast.Attribute(value=copy.deepcopy(cargs[0]), attr=e.args[0].value, ctx=ast.Load()),
+                                    args=[copy.deepcopy(x) for x in e.args[1:]], keywords=[copy.deepcopy(k) for k in e.keywords])
+                return _Applicable(mc)
+            if ext == ("operator", "attrgetter") and len(e.args) == 1 and not e.keywords and isinstance(e.args[0], ast.Constant) and isinstance(e.args[0].value, str):
+                def ag(cargs, ckws):
+                    if len(cargs) != 1 or ckws or isinstance(cargs[0], ast.Starred):
+                        return None
+                    out = copy.deepcopy(cargs[0])
+                    for part in e.args[0].value.split("."):
+                        out = ast.Attribute(value=out, attr=part, ctx=ast.Load())
+                    return out
+                return _Applicable(ag)
+            if ext == ("operator", "itemgetter") and len(e.args) == 1 and not e.keywords:
+                def ig(cargs, ckws):
+                    if len(cargs) != 1 or ckws or isinstance(cargs[0], ast.Starred):
+                        return None
+                    return ast.Subscript(value=copy.deepcopy(cargs[0]), slice=copy.deepcopy(e.args[0]), ctx=ast.Load())
+                return _Applicable(ig)
+            if ext == ("functools", "partial") and e.args:
+                inner = e.args[0]
+
+                def pt(cargs, ckws):
+                    if {k.arg for k in ckws} & {k.arg for k in e.keywords}:
+                        return None
+                    a2 = [copy.deepcopy(x) for x in list(e.args[1:]) + list(cargs)]
+                    k2 = [copy.deepcopy(k) for k in list(e.keywords) + list(ckws)]
+                    r = self.callable_value(inner, ctx_mod, True, depth + 1)
+                    out = r.apply(a2, k2) if r is not None else None
+                    if out is None:
+                        if ctx_mod is not None and not isinstance(inner, (ast.Name, ast.Attribute)):
+                            return None
+                        out = ast.Call(func=copy.deepcopy(inner), args=a2, keywords=k2)
+                    return out
+                return _Applicable(pt)
+            return None
+        if isinstance(e, ast.IfExp):
+            if ctx_mod is not None and self._shadowed(e.test):
+                return None
+            ra, rb = (self.callable_value(x, ctx_mod, True, depth + 1) for x in (e.body, e.orelse))
+
+            def br(r, x):
+                def go(cargs, ckws):
+                    out = r.apply(cargs, ckws) if r is not None else None
+                    if out is None and isinstance(x, (ast.Name, ast.Attribute)) and not (ctx_mod is not None and self._shadowed(x)):
+                        out = ast.Call(func=copy.deepcopy(x), args=[copy.deepcopy(a) for a in cargs], keywords=[copy.deepcopy(k) for k in ckws])
+                    return out
+                return go
+
+            def ie(cargs, ckws):
+                a, b = br(ra, e.body)(cargs, ckws), br(rb, e.orelse)(cargs, ckws)
+                if a is None or b is None:
+                    return None
+                return ast.IfExp(test=copy.deepcopy(e.test), body=a, orelse=b)
+            return _Applicable(ie)
+        return None
+
+    def _names_module_or_class(self, n: ast.Name, ctx_mod: Optional[str]) -> bool:
+        if ctx_mod is None and self.is_local(n.id):
+            return False
+        r = self.repo.lookup(ctx_mod or self.mod, n.id)
+        return bool(r) and r[0] in ("module", "external", "class")
+
+    def _external_fn(self, mod: str, attr: str) -> Optional[_Applicable]:
+        if mod not in ("operator", "_operator"):
+            return None
+        attr = attr.strip("_") if attr.startswith("__") else attr
+        plain = lambda cargs, ckws, n: len(cargs) == n and not ckws and not any(isinstance(x, ast.Starred) for x in cargs)
+        cp = copy.deepcopy
+        if attr in OP_BIN or attr + "_" in OP_BIN:
+            op = OP_BIN.get(attr) or OP_BIN[attr + "_"]
+            return _Applicable(lambda a, k: ast.BinOp(left=cp(a[0]), op=op(), right=cp(a[1])) if plain(a, k, 2) else None)
+        if attr in OP_CMP:
+            op2 = OP_CMP[attr]
+            return _Applicable(lambda a, k: ast.Compare(left=cp(a[0]), ops=[op2()], comparators=[cp(a[1])]) if plain(a, k, 2) else None)
+        if attr == "contains":
+            return _Applicable(lambda a, k: ast.Compare(left=cp(a[1]), ops=[ast.In()], comparators=[cp(a[0])]) if plain(a, k, 2) else None)
+        if attr in ("not_", "not"):
+            return _Applicable(lambda a, k: ast.UnaryOp(op=ast.Not(), operand=cp(a[0])) if plain(a, k, 1) else None)
+        if attr == "truth":
+            return _Applicable(lambda a, k: ast.Call(func=ast.Name(id="bool", ctx=ast.Load()), args=[cp(a[0])], keywords=[]) if plain(a, k, 1) else None)
+        if attr == "getitem":
+            return _Applicable(lambda a, k: ast.Subscript(value=cp(a[0]), slice=cp(a[1]), ctx=ast.Load()) if plain(a, k, 2) else None)
+        return None
+
+    # ---------------------------------------------------------------- constant tables and records
+    def dict_value(self, e: ast.AST, ctx_mod: Optional[str] = None, depth: int = 0) -> Optional[Tuple[ast.Dict, Optional[str]]]:
+        if depth > 6:
+            return None
+        d: Optional[Tuple[ast.AST, Optional[str]]] = None
+        if isinstance(e, ast.Dict):
+            d = (e, ctx_mod)
+        elif isinstance(e, ast.Name):
+            if ctx_mod is None and self.is_local(e.id):
+                b = self.single(e.id)
+                if b is None or isinstance(b, ast.FunctionDef) or e.id in self.unsafe_dict_use:
+                    return None
+                return self.dict_value(b.value, None, depth + 1)
+            gv = self._global_value(e.id, ctx_mod)
+            return self.dict_value(gv[0], gv[1], depth + 1) if gv else None
+        elif isinstance(e, ast.Attribute) and isinstance(e.value, ast.Name) and self.f0.cls and self.f0.cls in self.repo.classes and \
+                e.value.id in (self.f0.self_name, "cls", self.f0.cls) and (e.value.id == self.f0.cls or len(self.binds.get(e.value.id, [])) <= 1):
+            for c in self.repo.mro(self.f0.cls):
+                ci = self.repo.classes[c]
+                vals = [b.value for b in ci.node.body if (isinstance(b, ast.Assign) and any(isinstance(t, ast.Name) and t.id == e.attr for t in b.targets))
+                        or (isinstance(b, ast.AnnAssign) and isinstance(b.target, ast.Name) and b.target.id == e.attr and b.value is not None)]
+                if vals:
+                    stored = any(isinstance(x, ast.Attribute) and x.attr == e.attr and isinstance(x.ctx, ast.Store) for x in ast.walk(ci.node))
+                    return None if stored or len(vals) != 1 else self.dict_value(vals[0], ci.mod, depth + 1)
+            return None
+        if d is None:
+            return None
+        dn = d[0]
+        if not dn.keys or any(k is None or not isinstance(k, ast.Constant) for k in dn.keys):
+            return None
+        if d[1] is not None and any(self._shadowed(v) for v in dn.values):
+            return None
+        return dn, d[1]
+
+    def is_boolean(self, e: ast.AST, depth: int = 0) -> bool:
+        if depth > 6:
+            return False
+        if isinstance(e, ast.Compare):
+            return True
+        if isinstance(e, ast.Constant):
+            return isinstance(e.value, bool)
+        if isinstance(e, ast.UnaryOp) and isinstance(e.op, ast.Not):
+            return True
+        if isinstance(e, ast.BoolOp):
+            return all(self.is_boolean(v, depth + 1) for v in e.values)
+        if isinstance(e, ast.NamedExpr):
+            return self.is_boolean(e.value, depth + 1)
+        if isinstance(e, ast.IfExp):
+            return self.is_boolean(e.body, depth + 1) and self.is_boolean(e.orelse, depth + 1)
+        if isinstance(e, ast.Call):
+            if isinstance(e.func, ast.Name) and e.func.id in BOOL_CALLS and self._builtin(e.func, e.func.id):
+                return True
+            return isinstance(e.func, ast.Attribute) and e.func.attr in BOOL_METHODS
+        if isinstance(e, ast.Name) and self.is_local(e.id):
+            bs = self.binds.get(e.id, [])
+            return bool(bs) and all(isinstance(b, (ast.Assign, ast.AnnAssign)) and b.value is not None and self.is_boolean(b.value, depth + 1) for b in bs)
+        return False
+
+    def _pick(self, d: ast.Dict, key: ast.AST, default: Optional[ast.AST]) -> Optional[ast.AST]:
+        """value of the constant table for the key expression"""
+        if isinstance(key, ast.Constant):
+            for k, v in zip(d.keys, d.values):
+                if type(k.value) is type(key.value) and k.value == key.value:
+                    return copy.deepcopy(v)
+            return copy.deepcopy(default) if default is not None else None
+        ks = [k.value for k in d.keys]
+        if len(ks) == 2 and all(type(k) is bool for k in ks) and set(ks) == {True, False} and self.is_boolean(key):
+            by = {k.value: v for k, v in zip(d.keys, d.values)}
+            return ast.IfExp(test=copy.deepcopy(key), body=copy.deepcopy(by[True]), orelse=copy.deepcopy(by[False]))
+        return None
+
+    def record_fields(self, e: ast.AST) -> Optional[Dict[str, ast.AST]]:
+        """{field: argument} (in field order) when the expression builds a NamedTuple / dataclass record of the repository"""
+        return record_fields(self.repo, self.mod, e, lambda n: self.is_local(n))
+
+    def record_member(self, recv: ast.AST, attr: str, cargs, ckws) -> Optional[ast.AST]:
+        """`R(..).m(args)` / `R(..).prop` for a one-expression method / property of the record class: its expression with the
+        fields of self replaced by the constructor arguments (cargs None: property access)"""
+        rec = self._record_of(recv)
+        ctor = recv
+        if isinstance(recv, ast.Name):
+            b = self.single(recv.id)
+            ctor = b.value if b is not None and not isinstance(b, ast.FunctionDef) else None
+        if rec is None or not isinstance(ctor, ast.Call) or not isinstance(ctor.func, ast.Name):
+            return None
+        ci = self.repo.classes.get(ctor.func.id)
+        m = ci.methods.get(attr) if ci is not None else None
+        if m is None or attr in rec:
+            return None
+        is_prop = attr in ci.props
+        if (cargs is None) != is_prop or attr in ci.static or len(m.decorator_list) != (1 if is_prop else 0):
+            return None
+        body = list(m.body)
+        if body and isinstance(body[0], ast.Expr) and isinstance(body[0].value, ast.Constant) and isinstance(body[0].value.value, str):
+            body = body[1:]
+        if len(body) != 1 or not isinstance(body[0], ast.Return) or body[0].value is None or not m.args.args:
+            return None
+        self_name = m.args.args[0].arg
+        expr = body[0].value
+        return self._apply_member(m, expr, self_name, rec, cargs, ckws, ci.mod)
+
+    @staticmethod
+    def _only_field_reads(expr: ast.AST, self_name: str, rec: Dict[str, ast.AST]) -> bool:
+        reads = {id(p_.value) for p_ in ast.walk(expr) if isinstance(p_, ast.Attribute) and isinstance(p_.value, ast.Name) and p_.value.id == self_name and p_.attr in rec
+                 and isinstance(p_.ctx, ast.Load)}
+        return all(id(x) in reads for x in ast.walk(expr) if isinstance(x, ast.Name) and x.id == self_name)
+
+    def _apply_member(self, m: ast.FunctionDef, expr: ast.AST, self_name: str, rec: Dict[str, ast.AST], cargs, ckws, cls_mod: str) -> Optional[ast.AST]:
+        if not self._only_field_reads(expr, self_name, rec):
+            return None
+        if cls_mod != self.mod:
+            return None
+        lam = self._lam(m.args, expr, cls_mod)
+        if lam is None:
+            return None
+        marker = f"__rec{next(_fresh)}"
+        out = lam.apply([ast.Name(id=marker, ctx=ast.Load())] + list(cargs or []), ckws or [])
+        if out is None:
+            return None
+
+        class F(ast.NodeTransformer):
+            def visit_Attribute(self, a):
+                if isinstance(a.value, ast.Name) and a.value.id == marker and a.attr in rec:
+                    return copy.deepcopy(rec[a.attr])
+                return self.generic_visit(a)
+        out = F().visit(out)
+        return None if marker in _names(out) else out
+
+    def _record_of(self, e: ast.AST) -> Optional[Dict[str, ast.AST]]:
+        if isinstance(e, ast.Name) and self.is_local(e.id):
+            b = self.single(e.id)
+            if b is None or isinstance(b, ast.FunctionDef):
+                return None
+            e = b.value
+        return self.record_fields(e)
+
+    # ---------------------------------------------------------------- the rewriting pass
+    def run(self) -> bool:
+        any_change = False
+        for _ in range(12):
+            self._scan()
+            self.changed = False
+            self.drop: Set[int] = set()
+            self.fused_lists: Set[str] = set()
+            _Pass(self).generic_visit(self.fn)
+            if self.drop:
+                _Drop(self.drop).visit(self.fn)
+            self._remove_unused_callables()
+            ast.fix_missing_locations(self.fn)
+            if not self.changed:
+                break
+            any_change = True
+        return any_change
+
+    def _remove_unused_callables(self) -> None:
+        """a local function / lambda whose every call was replaced is not needed any more"""
+        self._scan()
+        dead: Set[int] = set()
+        for name, bs in self.binds.items():
+            if len(bs) != 1 or self.loads.get(name, 0):
+                continue
+            b = bs[0]
+            if isinstance(b, ast.FunctionDef) and b is not self.fn:
+                dead.add(id(b))
+            elif name in getattr(self, "fused_lists", ()) and isinstance(b, (ast.Assign, ast.AnnAssign)) and isinstance(b.value, ast.ListComp):
+                dead.add(id(b))
+            elif isinstance(b, (ast.Assign, ast.AnnAssign)) and isinstance(b.value, ast.Lambda):
+                dead.add(id(b))
+        if dead:
+            _Drop(dead).visit(self.fn)
+            self.changed = True
+
+
+class _Drop(ast.NodeTransformer):
+    def __init__(self, ids: Set[int]):
+        self.ids = ids
+
+    def visit(self, node):
+        if id(node) in self.ids:
+            return None
+        r = super().visit(node)
+        if r is node and isinstance(node, (ast.stmt, ast.ExceptHandler)) and isinstance(getattr(node, "body", None), list) and not node.body:
+            node.body = [ast.copy_location(ast.Pass(), node)]      # a block must not become empty
+        return r
+
+
+class _Pass(ast.NodeTransformer):
+    def __init__(self, N: Normaliser):
+        self.N = N
+
+    # nested scopes are left alone: they are looked at when (and where) they are applied
+    def visit_FunctionDef(self, n):
+        return n
+
+    visit_AsyncFunctionDef = visit_Lambda = visit_ClassDef = visit_FunctionDef
+
+    def _done(self, new: ast.AST, at: ast.AST) -> ast.AST:
+        self.N.changed = True
+        return _relocate(new, at)
+
+    # ---------------------------------------------------------------- calls
+    def visit_Call(self, n: ast.Call):
+        self.generic_visit(n)
+        N = self.N
+        fn = n.func
+        plain = not any(isinstance(a, ast.Starred) for a in n.args) and not any(k.arg is None for k in n.keywords)
+        # map / filter -> generator expression
+        if plain and not n.keywords and isinstance(fn, ast.Name) and fn.id in ("map", "filter") and N._builtin(fn, fn.id) and len(n.args) >= 2:
+            k = next(_fresh)
+            if fn.id == "map":
+                vs = [f"__m{k}_{i}" if len(n.args) > 2 else f"__m{k}" for i in range(len(n.args) - 1)]
+                elt = self._apply(n.args[0], [ast.Name(id=v, ctx=ast.Load()) for v in vs])
+                if elt is not None:
+                    if len(vs) == 1:
+                        tgt: ast.AST = ast.Name(id=vs[0], ctx=ast.Store())
+                        it = n.args[1]
+                    else:
+                        tgt = ast.Tuple(elts=[ast.Name(id=v, ctx=ast.Store()) for v in vs], ctx=ast.Store())
+                        it = ast.Call(func=ast.Name(id="zip", ctx=ast.Load()), args=list(n.args[1:]), keywords=[])
+                    return self._done(ast.GeneratorExp(elt=elt, generators=[ast.comprehension(target=tgt, iter=it, ifs=[], is_async=0)]), n)
+            elif len(n.args) == 2:
+                v = f"__m{k}"
+                if isinstance(n.args[0], ast.Constant) and n.args[0].value is None:
+                    cond: Optional[ast.AST] = ast.Name(id=v, ctx=ast.Load())
+                else:
+                    cond = self._apply(n.args[0], [ast.Name(id=v, ctx=ast.Load())])
+                if cond is not None:
+                    return self._done(ast.GeneratorExp(elt=ast.Name(id=v, ctx=ast.Load()), generators=[
+                        ast.comprehension(target=ast.Name(id=v, ctx=ast.Store()), iter=n.args[1], ifs=[cond], is_async=0)]), n)
+        # list(<generator expression>) is the list comprehension
+        if plain and not n.keywords and isinstance(fn, ast.Name) and fn.id in ("list", "set") and N._builtin(fn, fn.id) and len(n.args) == 1 \
+                and isinstance(n.args[0], ast.GeneratorExp):
+            ge = n.args[0]
+            new_c = (ast.ListComp if fn.id == "list" else ast.SetComp)(elt=ge.elt, generators=ge.generators)
+            self.N.changed = True
+            return ast.copy_location(new_c, n)
+        # a callable value applied
+        if isinstance(fn, (ast.Name, ast.Lambda, ast.Call, ast.IfExp)) or (isinstance(fn, ast.Attribute) and isinstance(fn.value, ast.Name)):
+            r = N.callable_value(fn, None, bound_ok=not isinstance(fn, ast.Attribute))
+            if r is not None:
+                new = r.apply(list(n.args), list(n.keywords))
+                if new is not None:
+                    return self._done(new, n)
+        # a one-expression method of a freshly built record
+        if isinstance(fn, ast.Attribute) and N._record_of(fn.value) is not None:
+            new = N.record_member(fn.value, fn.attr, list(n.args), list(n.keywords))
+            if new is not None:
+                return self._done(new, n)
+        # TABLE.get(key[, default])
+        if plain and isinstance(fn, ast.Attribute) and fn.attr == "get" and not n.keywords and len(n.args) in (1, 2):
+            d = N.dict_value(fn.value)
+            if d is not None:
+                new = N._pick(d[0], n.args[0], n.args[1] if len(n.args) == 2 else ast.Constant(value=None))
+                if new is not None:
+                    return self._done(new, n)
+        # Class.method(self, ..) -> self.method(..)
+        f0 = N.f0
+        if plain and isinstance(fn, ast.Attribute) and isinstance(fn.value, ast.Name) and f0.cls and fn.value.id == f0.cls and not N.is_local(f0.cls) \
+                and f0.self_name and n.args and isinstance(n.args[0], ast.Name) and n.args[0].id == f0.self_name and len(N.binds.get(f0.self_name, [])) <= 1:
+            m = N.repo.find_method(f0.cls, fn.attr)
+            if m is not None and m.is_method:
+                return self._done(ast.Call(func=ast.Attribute(value=n.args[0], attr=fn.attr, ctx=ast.Load()), args=list(n.args[1:]), keywords=list(n.keywords)), n)
+        return n
+
+    def _apply(self, f: ast.AST, args: List[ast.AST]) -> Optional[ast.AST]:
+        """the expression `f(*args)` with a callable value replaced by what it evaluates"""
+        r = self.N.callable_value(f, None, bound_ok=True)
+        out = r.apply(list(args), []) if r is not None else None
+        if out is None:
+            if not isinstance(f, (ast.Name, ast.Attribute, ast.Lambda, ast.Call, ast.IfExp, ast.Subscript)):
+                return None
+            out = ast.Call(func=copy.deepcopy(f), args=list(args), keywords=[])
+        return out
+
+    def visit_List(self, n: ast.List):
+        self.generic_visit(n)
+        if isinstance(n.ctx, ast.Load) and len(n.elts) == 1 and isinstance(n.elts[0], ast.Starred) and not self.N.is_local("list") \
+                and not self.N.repo.lookup(self.N.mod, "list"):
+            self.N.changed = True           # [*xs] is list(xs)
+            return ast.copy_location(ast.Call(func=ast.copy_location(ast.Name(id="list", ctx=ast.Load()), n), args=[n.elts[0].value], keywords=[]), n)
+        return n
+
+    # ---------------------------------------------------------------- tables / records
+    def visit_Subscript(self, n: ast.Subscript):
+        self.generic_visit(n)
+        if not isinstance(n.ctx, ast.Load):
+            return n
+        d = self.N.dict_value(n.value)
+        if d is not None:
+            new = self.N._pick(d[0], n.slice, None)
+            if new is not None:
+                return self._done(new, n)
+        i = const_int(n.slice)
+        if i is not None:
+            rec = self.N._record_of(n.value)
+            vals = list(rec.values()) if rec is not None else (list(n.value.elts) if isinstance(n.value, ast.Tuple) and not any(isinstance(x, ast.Starred) for x in n.value.elts) else None)
+            if vals is not None and -len(vals) <= i < len(vals):
+                return self._done(copy.deepcopy(vals[i]), n)
+        return n
+
+    def visit_Attribute(self, n: ast.Attribute):
+        self.generic_visit(n)
+        if isinstance(n.ctx, ast.Load):
+            rec = self.N._record_of(n.value)
+            if rec is not None and n.attr in rec:
+                return self._done(copy.deepcopy(rec[n.attr]), n)
+            if rec is not None:
+                new = self.N.record_member(n.value, n.attr, None, None)
+                if new is not None:
+                    return self._done(new, n)
+        return n
+
+    # ---------------------------------------------------------------- lazily consumed iterators
+    def _source(self, it: ast.AST) -> Optional[ast.AST]:
+        """the one-generator comprehension an iterated expression denotes (directly, or through an alias that is used once)"""
+        N = self.N
+        if isinstance(it, ast.Name) and N.is_local(it.id):
+            b = N.single(it.id)
+            if b is None or isinstance(b, ast.FunctionDef) or id(b) in N.drop:
+                return None
+            if isinstance(b.value, ast.GeneratorExp) and N.loads.get(it.id, 0) == 1 and self._fusable(b.value):
+                N.drop.add(id(b))
+                return b.value
+            # a list built by a comprehension and only ever iterated: every iteration sees the same elements
+            if isinstance(b.value, ast.ListComp) and N.iterated_only(it.id) and self._fusable(b.value):
+                N.fused_lists.add(it.id)
+                return b.value
+            return None
+        if isinstance(it, (ast.GeneratorExp, ast.ListComp)) and self._fusable(it):
+            return it
+        return None
+
+    @staticmethod
+    def _fusable(c: ast.AST) -> bool:
+        return len(c.generators) == 1 and not c.generators[0].is_async and not any(isinstance(x, ast.NamedExpr) for x in ast.walk(c))
+
+    @staticmethod
+    def _fresh_vars(c: ast.AST):
+        """(target, iter, ifs, elt) of the one-generator comprehension with its variables renamed apart"""
+        g = c.generators[0]
+        k = next(_fresh)
+        ren = _Rename({x: (x if x.startswith("__m") else f"{x}__n{k}") for x in _names(g.target)})
+        cp = copy.deepcopy
+        return ren.visit(cp(g.target)), cp(g.iter), [ren.visit(cp(x)) for x in g.ifs], ren.visit(cp(c.elt))
+
+    def visit_For(self, n: ast.For):
+        self.generic_visit(n)
+        src = self._source(n.iter)
+        if src is None:
+            return n
+        tgt, it, ifs, elt = self._fresh_vars(src)
+        body: List[ast.stmt] = [ast.copy_location(ast.Assign(targets=[n.target], value=elt, lineno=n.lineno), n.iter)] + list(n.body)
+        for c in reversed(ifs):
+            body = [ast.copy_location(ast.If(test=c, body=body, orelse=[]), n.iter)]
+        new = ast.copy_location(ast.For(target=tgt, iter=it, body=body, orelse=n.orelse, lineno=n.lineno), n)
+        self.N.changed = True
+        return new
+
+    def _fuse(self, n):
+        self.generic_visit(n)
+        g0 = n.generators[0]
+        src = self._source(g0.iter)
+        if src is None or g0.is_async:
+            return n
+        tgt, it, ifs, elt = self._fresh_vars(src)
+        # the outer variable(s) stand for the inner element
+        if isinstance(g0.target, ast.Name):
+            mapping = {g0.target.id: elt}
+        elif isinstance(g0.target, (ast.Tuple, ast.List)) and isinstance(elt, ast.Tuple) and len(elt.elts) == len(g0.target.elts) \
+                and all(isinstance(x, ast.Name) for x in g0.target.elts):
+            mapping = {t.id: v for t, v in zip(g0.target.elts, elt.elts)}
+        else:
+            return n
+        rebound = set()
+        for g in n.generators[1:]:
+            rebound |= _names(g.target)
+        inner_bound = set()
+        for part in ([n.elt] if not isinstance(n, ast.DictComp) else [n.key, n.value]):
+            inner_bound |= _bound_inside(part)
+        if rebound & set(mapping) or inner_bound & set(mapping) or any(_names(v) & (rebound | inner_bound) for v in mapping.values()):
+            return n
+        sub = _Subst(mapping)
+        g0.target, g0.iter = tgt, it
+        g0.ifs = ifs + [sub.visit(x) for x in g0.ifs]
+        for g in n.generators[1:]:
+            g.iter = sub.visit(g.iter)
+            g.ifs = [sub.visit(x) for x in g.ifs]
+        if isinstance(n, ast.DictComp):
+            n.key, n.value = sub.visit(n.key), sub.visit(n.value)
+        else:
+            n.elt = sub.visit(n.elt)
+        self.N.changed = True
+        return _relocate(n, n)
+
+    visit_ListComp = visit_SetComp = visit_GeneratorExp = visit_DictComp = _fuse
+
+
+def record_fields(repo: Repo, modname: str, e: ast.AST, is_local=lambda n: False) -> Optional[Dict[str, ast.AST]]:
+    """{field: argument expression} in field order when `e` is `R(..)` with R a NamedTuple / dataclass class of the repository whose
+    constructor is the generated one"""
+    if not (isinstance(e, ast.Call) and isinstance(e.func, ast.Name)) or is_local(e.func.id):
+        return None
+    r = repo.lookup(modname, e.func.id)
+    if not r or r[0] != "class" or e.func.id not in repo.classes:
+        return None
+    ci = repo.classes[e.func.id]
+    node = ci.node
+    is_nt = any((isinstance(b, ast.Name) and b.id == "NamedTuple") or (isinstance(b, ast.Attribute) and b.attr == "NamedTuple") for b in node.bases)
+    is_dc = any("dataclass" in ast.unparse(d) for d in node.decorator_list)
+    if not (is_nt or is_dc) or (is_nt and len(node.bases) != 1) or (is_dc and node.bases):
+        return None
+    if any(m in ci.methods for m in ("__init__", "__new__", "__post_init__", "__getattr__", "__getattribute__", "__getitem__")):
+        return None
+    fields: List[Tuple[str, Optional[ast.AST]]] = []
+    for b in node.body:
+        if isinstance(b, ast.AnnAssign) and isinstance(b.target, ast.Name):
+            if "ClassVar" in ast.unparse(b.annotation):
+                continue
+            fields.append((b.target.id, b.value))
+    if not fields or any(isinstance(a, ast.Starred) for a in e.args) or any(k.arg is None for k in e.keywords) or len(e.args) > len(fields):
+        return None
+    out: Dict[str, ast.AST] = {}
+    kw = {k.arg: k.value for k in e.keywords}
+    for i, (name, default) in enumerate(fields):
+        if i < len(e.args):
+            if name in kw:
+                return None
+            out[name] = e.args[i]
+        elif name in kw:
+            out[name] = kw[name]
+        elif default is not None and isinstance(default, ast.Constant):
+            out[name] = default
+        else:
+            return None
+    if set(kw) - set(out):
+        return None
+    return out
 
 
 # --------------------------------------------------------------------------------------------------------- values
@@ -267,6 +1097,30 @@ class View:
             cc = self._class_const(e)
             if cc is not None and ("c", e.attr) not in _vis:
                 return R(cc[0], mod=cc[1], via=_via + (e.attr,), vis=_vis | {("c", e.attr)})
+        if isinstance(e, ast.Subscript) and isinstance(e.ctx, ast.Load) and not isinstance(e.slice, ast.Slice) and ("s", id(e)) not in _vis:
+            rows = self._table_rows(e, mod)
+            if rows is not None:
+                out_t: List[Leaf] = []
+                for x, leaf in rows:
+                    out_t += R(x, mod=leaf.mod, via=_via + leaf.via, vis=_vis | {("s", id(e))})
+                return out_t
+        if isinstance(e, (ast.Attribute, ast.Subscript)) and isinstance(e.ctx, ast.Load) and mod is None:
+            part = self._component(e)
+            if part is not None:
+                out_: List[Leaf] = []
+                for x, leaf in part:
+                    out_ += R(x, mod=leaf.mod, via=_via + leaf.via)
+                return out_
+        if isinstance(e, ast.Call) and isinstance(e.func, ast.Name) and e.func.id == "next" and len(e.args) == 2 and not e.keywords and mod is None \
+                and not self._local(e.func) and not alias_only:
+            gens = [leaf.node for leaf in self.alts(e.args[0])]
+            if gens and all(isinstance(x, ast.GeneratorExp) for x in gens):     # the first element that passes, else the default
+                out_n: List[Leaf] = []
+                for x in gens:
+                    out_n += R(x.elt)
+                return out_n + R(e.args[1])
+        if isinstance(e, ast.Constant) and getattr(e, "const_name", ""):
+            return [Leaf(e, mod, _via + (e.const_name,))]      # a module constant the inliner put in place of its name
         if not (isinstance(e, ast.Name) and isinstance(e.ctx, ast.Load)):
             return [Leaf(e, mod, _via)]
         if mod is not None:
@@ -274,7 +1128,15 @@ class View:
             if gl is None or ("g", mod, e.id) in _vis:
                 return [Leaf(e, mod, _via)]
             return R(gl[0], mod=gl[1], via=_via + (e.id,), vis=_vis | {("g", mod, e.id)})
-        if self.p._comp_binding(e) is not None:
+        cb = self.p._comp_binding(e)
+        if cb is not None:
+            if cb != "lambda" and isinstance(cb, ast.comprehension) and ("t", id(cb), e.id) not in _vis:
+                els = self._table_elements(cb.target, cb.iter, e.id)
+                if els is not None:
+                    out_c: List[Leaf] = []
+                    for x, leaf in els:
+                        out_c += R(x, mod=leaf.mod, via=_via + leaf.via, vis=_vis | {("t", id(cb), e.id)})
+                    return out_c
             return [Leaf(e, None, _via)]
         at = self.node_of(e)
         if at is None:
@@ -292,6 +1154,14 @@ class View:
                 stop = True
                 continue
             v = self._def_value(d, e.id)
+            if v is None and isinstance(self.g.stmt[d], ast.For) and not alias_only:
+                # the element variable of a loop over a constant table: the corresponding component of every row
+                st_ = self.g.stmt[d]
+                els = self._table_elements(st_.target, st_.iter, e.id)
+                if els is not None:
+                    for x, leaf in els:
+                        out += R(x, mod=leaf.mod, via=_via + leaf.via, vis=_vis | {(e.id, d)})
+                    continue
             if v is None:
                 stop = True
                 continue
@@ -306,6 +1176,99 @@ class View:
         if stop:
             out.append(Leaf(e, None, _via))
         return out
+
+    def _table_rows(self, e: ast.Subscript, mod: Optional[str]) -> Optional[List[Tuple[ast.AST, Leaf]]]:
+        """`TABLE[key]` for a dict display with constant keys at module / class level: the values the key can select under the
+        valuation (every value when the key is not a known constant)"""
+        if isinstance(e.value, (ast.Call, ast.Constant, ast.Subscript)):
+            return None
+        tables = self.alts(e.value, mod)
+        if not tables or not all(isinstance(t.node, ast.Dict) and t.mod is not None and t.node.keys
+                                 and all(isinstance(k, ast.Constant) for k in t.node.keys) for t in tables):
+            return None
+        keys = self.alts(e.slice, mod)
+        known = [k.node.value for k in keys] if keys and all(isinstance(k.node, ast.Constant) for k in keys) else None
+        out: List[Tuple[ast.AST, Leaf]] = []
+        for t in tables:
+            for k, v in zip(t.node.keys, t.node.values):
+                if known is None or any(type(k.value) is type(x) and k.value == x for x in known):
+                    out.append((v, t))
+        return out or None
+
+    def const_values(self, e: ast.AST) -> Optional[Set[object]]:
+        """the constants the expression can evaluate to under the valuation (None: some alternative is not a constant)"""
+        if isinstance(e, ast.Compare) and len(e.ops) == 1:
+            l, r_ = self.const_values(e.left), self.const_values(e.comparators[0])
+            op = e.ops[0]
+            if isinstance(op, (ast.In, ast.NotIn)) and l is not None and isinstance(e.comparators[0], (ast.Tuple, ast.List, ast.Set)) \
+                    and all(isinstance(x, ast.Constant) for x in e.comparators[0].elts):
+                members = [x.value for x in e.comparators[0].elts]
+                return {(a in members) == isinstance(op, ast.In) for a in l}
+            if l is None or r_ is None or not isinstance(op, (ast.Eq, ast.NotEq, ast.Is, ast.IsNot)):
+                return None
+            pos = isinstance(op, (ast.Eq, ast.Is))
+            return {((type(a) is type(b) and a == b) == pos) for a in l for b in r_}
+        if isinstance(e, ast.UnaryOp) and isinstance(e.op, ast.Not):
+            x = self.const_values(e.operand)
+            return None if x is None else {not bool(a) for a in x}
+        if not isinstance(e, (ast.Name, ast.Attribute, ast.Subscript, ast.Constant, ast.IfExp, ast.NamedExpr)):
+            return None
+        try:
+            leaves = self.alts(e)
+        except (KeyError, RecursionError):
+            return None
+        if not leaves or not all(isinstance(x.node, ast.Constant) for x in leaves):
+            return None
+        return {x.node.value for x in leaves}
+
+    def _table_elements(self, target: ast.AST, it: ast.AST, name: str) -> Optional[List[Tuple[ast.AST, Leaf]]]:
+        """what the variable `name` of the loop target stands for when the loop runs over a constant table (a list / tuple display,
+        local or at module / class level, whose rows have the shape of the target): (component expression, leaf of the table)"""
+        out: List[Tuple[ast.AST, Leaf]] = []
+        tables = self.alts(it)
+        if not tables:
+            return None
+        for leaf in tables:
+            t = leaf.node
+            if not isinstance(t, (ast.List, ast.Tuple)) or not t.elts or any(isinstance(x, ast.Starred) for x in t.elts):
+                return None
+            if leaf.mod is None and isinstance(it, ast.Name) and it.id in getattr(self.p, "_content", {}):
+                return None         # a local list that is filled later
+            for row in t.elts:
+                x = self._paired(target, row, name)
+                if x is None:
+                    return None
+                out.append((x, leaf))
+        return out
+
+    def _component(self, e: ast.AST) -> Optional[List[Tuple[ast.AST, Leaf]]]:
+        """`r.field` / `r[i]` where every value r can be is a freshly built record (NamedTuple / dataclass of the repository) or a
+        tuple display, `TABLE[key]` / `TABLE.get(key)` handled elsewhere: (component expression, the leaf it was taken from)"""
+        if isinstance(e, ast.Subscript) and (const_int(e.slice) is None or isinstance(e.value, (ast.Tuple, ast.Call))):
+            return None
+        if isinstance(e.value, (ast.Constant, ast.Call)):
+            return None
+        base = self.alts(e.value)
+        if not base or all(leaf.node is e.value for leaf in base):
+            return None
+        out: List[Tuple[ast.AST, Leaf]] = []
+        for leaf in base:
+            n = leaf.node
+            rec = record_fields(self.repo, leaf.mod or self.f.mod.name, n, (lambda nm: self._local_name(nm)) if leaf.mod is None else (lambda nm: False))
+            if isinstance(e, ast.Attribute):
+                if rec is None or e.attr not in rec:
+                    return None
+                out.append((rec[e.attr], leaf))
+            else:
+                vals = list(rec.values()) if rec is not None else (list(n.elts) if isinstance(n, ast.Tuple) and not any(isinstance(x, ast.Starred) for x in n.elts) else None)
+                i = const_int(e.slice)
+                if vals is None or not (-len(vals) <= i < len(vals)):
+                    return None
+                out.append((vals[i], leaf))
+        return out
+
+    def _local_name(self, name: str) -> bool:
+        return any(x == name for defs in self._in.values() for (x, _d) in defs)
 
     # ---------------------------------------------------------------- operation chains
     def chains(self, e: ast.AST, mod: Optional[str] = None, _depth: int = 0, stop=None) -> List[Tuple[Tuple[Op, ...], Leaf]]:
@@ -375,8 +1338,67 @@ class View:
             ok, v = (False, None)
             if leaf.mod is not None or not any(isinstance(x, ast.Name) and self._local(x) for x in ast.walk(n)):
                 ok, v = self.repo.fold(n, leaf.mod or self.f.mod.name)
+                if not (ok and isinstance(v, str)):
+                    v = self._fold_text(n, leaf.mod or self.f.mod.name)
+                    ok = v is not None
             out.append((v if ok and isinstance(v, str) else None, leaf))
         return out
+
+    def _fold_text(self, n: ast.AST, mod: str, depth: int = 0) -> Optional[str]:
+        """constant text built at module level with str.format / % / join / + from other constants"""
+        if depth > 12:
+            return None
+        F = lambda x: self._fold_text(x, mod, depth + 1)
+        ok, v = self.repo.fold(n, mod)
+        if ok and isinstance(v, (str, int)) and not isinstance(v, bool):
+            return str(v) if isinstance(v, str) or depth else None
+        if isinstance(n, ast.Name):
+            gl = self._global(n.id, mod)
+            return self._fold_text(gl[0], gl[1], depth + 1) if gl else None
+        if isinstance(n, ast.BinOp) and isinstance(n.op, ast.Add):
+            a, b = F(n.left), F(n.right)
+            return a + b if a is not None and b is not None else None
+        if isinstance(n, ast.JoinedStr):
+            parts = []
+            for x in n.values:
+                if isinstance(x, ast.Constant):
+                    parts.append(str(x.value))
+                elif isinstance(x, ast.FormattedValue) and x.format_spec is None and x.conversion == -1:
+                    parts.append(F(x.value))
+                else:
+                    return None
+            return "".join(parts) if all(x is not None for x in parts) else None
+        if isinstance(n, ast.BinOp) and isinstance(n.op, ast.Mod):
+            t = F(n.left)
+            args = [F(x) for x in (n.right.elts if isinstance(n.right, ast.Tuple) else [n.right])]
+            if t is None or any(a is None for a in args) or re.search(r"%[^s%]", t):
+                return None
+            try:
+                return t % tuple(args)
+            except (TypeError, ValueError):
+                return None
+        if isinstance(n, ast.Call) and isinstance(n.func, ast.Attribute) and not any(isinstance(a, ast.Starred) for a in n.args) \
+                and not any(k.arg is None for k in n.keywords):
+            if n.func.attr == "format":
+                t = F(n.func.value)
+                args = [F(a) for a in n.args]
+                kws = {k.arg: F(k.value) for k in n.keywords}
+                if t is None or any(a is None for a in args) or any(x is None for x in kws.values()):
+                    return None
+                try:
+                    import string as _string
+                    if any(spec or conv for _l, fld, spec, conv in _string.Formatter().parse(t) if fld is not None):
+                        return None
+                    return t.format(*args, **kws)
+                except (IndexError, KeyError, ValueError):
+                    return None
+            if n.func.attr == "join" and len(n.args) == 1 and not n.keywords and isinstance(n.args[0], (ast.List, ast.Tuple)):
+                sep = F(n.func.value)
+                parts = [F(x) for x in n.args[0].elts]
+                if sep is None or any(x is None for x in parts):
+                    return None
+                return sep.join(parts)
+        return None
 
     def _local(self, name: ast.Name) -> bool:
         n = self.node_of(name)
@@ -461,6 +1483,13 @@ class _Ev(S.Evaluator):
             tr.discard(e.id)
 
     def string(self, e: ast.AST, depth: int = 0) -> S.Shape:
+        if isinstance(e, (ast.Attribute, ast.Subscript)) and isinstance(self.rd, View):
+            try:
+                ss = self.rd.strings(e)          # a class-level / table constant
+            except (KeyError, RecursionError):
+                ss = []
+            if len(ss) == 1 and ss[0][0] is not None and ss[0][1].mod is not None:
+                return S.Lit(ss[0][0])
         if isinstance(e, ast.BinOp) and isinstance(e.op, ast.Mod) and depth <= 25:
             t = self.string(e.left, depth + 1)
             if isinstance(t, S.Lit):
